@@ -278,6 +278,9 @@ def run(ctx):
     # reported by the member that owns it (shared with C08.R3)
     from . import C08
     C08.substream_class_checks(ctx, "C18.R8")
+    # ... and a terminated string ends where its terminator (one code unit of its encoding) ends: the unit table (shared with C03.R2)
+    from . import C03 as _C03
+    _C03.unit_table_check(ctx, "C18.R8")
     ctx.floor("C18.R8", 10)
 
     # ---- the message of an error must be buildable for any offending object, or no ConstructError (and no path) is raised at all (shared with C06.R10)
